@@ -319,7 +319,46 @@ theorem C16_no_spawn_after_cancel :
     · simp at hs; subst hs; exact hp
     · simp at hs
 
+/-- **Children already running are signalled and reaped (the escalation to SIGKILL happens).**
+Model `Esc`: lanes released over the control channel, the escalation thread started by `cancelAllJobs`
+(`killAfterTimeout`) and the destructor's hand-over (`queueComplete`), over all interleavings.  The statement at full
+strength: whenever the destructor has joined the escalation thread, every process that is still registered — so every
+process `~ProcessGroup` is about to wait for, e.g. one that released its lane — has been sent the kill signal. -/
+def C16_escalation_full (fix : Bool) : Prop :=
+  ∀ s, Esc.Reachable fix s → s.escJoined = true → ∀ p ∈ s.procs, p.1 ∈ s.killSent
+
+/-- for the code in the tree (`escalatesWhenComplete` is extracted): full if the kill round is also run when the thread
+finds `queueComplete` already set (F53); otherwise under the hypothesis that the escalation thread entered its wait
+before the destructor stored `queueComplete` -/
+theorem C16_escalation :
+    ∀ s, Esc.Reachable Generated.LaneQueue.escalatesWhenComplete s → s.escJoined = true →
+      (Generated.LaneQueue.escalatesWhenComplete = true ∨ s.waited = true) →
+      ∀ p ∈ s.procs, p.1 ∈ s.killSent :=
+  fun _ h hj hw => Esc.escalated h hj hw
+
+/-- with F53 the full statement holds -/
+theorem C16_escalation_full_after_fix : C16_escalation_full true :=
+  fun _ h hj => Esc.escalated h hj (Or.inl rfl)
+
+/-- without F53 it is false: a child releases its lane, the build is cancelled, the destructor joins the (free) lanes
+and stores `queueComplete` before the escalation thread takes the mutex; the thread returns without signalling and
+`~ProcessGroup` waits for a child nobody killed (replayed on the real queue: `vc16 cancelphase`, destroy field `r0`) -/
+theorem C16_escalation_full_before_fix_false : ¬ C16_escalation_full false := by
+  intro h
+  have hr : Esc.run false Esc.init [.spawn, .release 1, .cancel, .joinLanes, .complete, .escEnter, .joinEsc] =
+      some { procs := [(1, false)], nextPid := 2, closed := true, thread := .finished false, lanesJoined := true,
+             queueComplete := true, escJoined := true, killSent := [], waited := false } := by decide
+  have := h _ (Esc.reachable_run .init _ hr) rfl (1, false) (by simp)
+  simp at this
+
 /-! non-vacuity -/
+-- the same history with the thread parked first: the destructor's notify makes it kill the released child at once
+example : (Esc.run false Esc.init [.spawn, .release 1, .cancel, .escEnter, .joinLanes, .complete, .escWake, .joinEsc]).map
+    (fun s => (s.escJoined, s.waited, s.procs, s.killSent)) = some (true, true, [(1, false)], [1]) := by decide
+-- a child that holds its lane blocks the join of the lanes until it is reaped (deadline: escWake, then reap)
+example : (Esc.run false Esc.init [.spawn, .cancel, .escEnter, .joinLanes]) = none ∧
+    ((Esc.run false Esc.init [.spawn, .cancel, .escEnter, .escWake, .reap 1, .joinLanes, .complete, .joinEsc]).map
+      (fun s => (s.escJoined, s.procs, s.killSent))) = some (true, [], [1]) := by decide
 example : classify (encode (.exited 0)) = .succeeded ∧ classify (encode (.exited 3)) = .failed ∧
     classify (encode (.signaled 2 false)) = .cancelled ∧ classify (encode (.signaled 9 false)) = .cancelled ∧
     classify (encode (.signaled 15 false)) = .failed ∧ classify (encode (.signaled 11 true)) = .failed := by decide
